@@ -437,8 +437,60 @@ pub fn run(spec: &RunSpec, ty: &dyn TyObj, want_log: bool) -> RunResult {
                         r
                     }
                 };
-                let maxw = vec![0xFFu8; width];
-                let zero = vec![0u8; width];
+                // The width of the words this sampler draws is observed, not assumed: one call on a fresh word, and the
+                // length of its first request is the word size `ww` of every measurement below (a sampler may draw narrower
+                // words than the type for small ranges). The range must fit into such a word.
+                let req_sizes: Vec<usize> = {
+                    let mut best: Option<Vec<usize>> = None;
+                    for d in 0..4 {
+                        rng.forget_events();
+                        let st = rng.begin_call_vol(&[], width);
+                        let r0 = match *via {
+                            0 => guarded(|| ty.gen_range(low, high, *inclusive, &mut rng, op.dynamic)),
+                            1 => guarded(|| ty.sample_single(low, high, *inclusive, false, &mut rng, op.dynamic)),
+                            _ => {
+                                let s = sampler.as_ref().unwrap();
+                                guarded(|| s.sample(&mut rng, op.dynamic))
+                            }
+                        };
+                        let evs = &rng.events[st..];
+                        let _ = check_panic(&r0, evs, oi, d, &mut viol, &mut counters);
+                        *counters.entry("draw_requests").or_insert(0) += evs.len() as u64;
+                        calls_total += 1;
+                        if r0.is_err() || evs.is_empty() {
+                            break;
+                        }
+                        let sizes: Vec<usize> = evs.iter().map(|e| e.req as usize).collect();
+                        if best.as_ref().map(|b| sizes.len() < b.len()).unwrap_or(true) {
+                            best = Some(sizes);
+                        }
+                        if best.as_ref().map(|b| b.len() == 1).unwrap_or(false) {
+                            break;
+                        }
+                    }
+                    match best {
+                        Some(b) if b.iter().all(|&x| x >= 1) && b.iter().sum::<usize>() <= width && b.len() <= 16 => b,
+                        _ => continue,
+                    }
+                };
+                // an attempt of this sampler = one request of each of these sizes, in this order; a "word" is the
+                // concatenation of the answers (for rand's u128 that is the value's little-endian byte order)
+                let ww: usize = req_sizes.iter().sum();
+                if req_sizes.len() > 1 {
+                    bump(&mut counters, "span_probe_multi_request_attempts");
+                }
+                if ww != width {
+                    bump(&mut counters, "span_probe_narrow_word_sampler");
+                }
+                // r in word space: ww + 1 bytes (r = 2^(8 ww) allowed); a range that does not fit cannot be measured
+                if rbytes[(ww + 1).min(rbytes.len())..].iter().any(|&b| b != 0) || (rbytes.len() > ww && rbytes[ww] > 1) || (rbytes.len() > ww && rbytes[ww] == 1 && rbytes[..ww].iter().any(|&b| b != 0)) {
+                    bump(&mut counters, "span_probe_targets_inapplicable");
+                    continue;
+                }
+                let mut r_w = rbytes.clone();
+                r_w.resize(ww + 1, 0);
+                let maxw = vec![0xFFu8; ww];
+                let zero = vec![0u8; ww];
                 let mut aborted = false;
                 let mut probes = 0u64;
                 let mut op_draws = 0u64;
@@ -458,7 +510,12 @@ pub fn run(spec: &RunSpec, ty: &dyn TyObj, want_log: bool) -> RunResult {
                     if probes % 200_000 == 0 && std::env::var("VERIF_DEBUG").is_ok() {
                         eprintln!("span probe [{}]: {} probes so far, op_draws {}, run {} type {} low {} high {}", section.get(), probes, op_draws, spec.run, spec.ty, hex(low), hex(high));
                     }
-                    let plan = [Plan::Fixed(w.to_vec())];
+                    let mut plan: Vec<Plan> = Vec::with_capacity(req_sizes.len());
+                    let mut at = 0usize;
+                    for &sz in req_sizes.iter() {
+                        plan.push(Plan::Fixed(w[at.min(w.len())..(at + sz).min(w.len())].to_vec()));
+                        at += sz;
+                    }
                     rng.forget_events();
                     let st = rng.begin_call_vol(&plan, width);
                     let r = match *via {
@@ -489,8 +546,8 @@ pub fn run(spec: &RunSpec, ty: &dyn TyObj, want_log: bool) -> RunResult {
                         return None;
                     };
                     fp.b(&v);
-                    if evs.first().map(|e| e.req as usize != width).unwrap_or(true) {
-                        // the sampler does not ask for one type-width word per attempt: reading does not apply
+                    if evs.len() < req_sizes.len() || evs.iter().zip(req_sizes.iter()).any(|(e, &sz)| e.req as usize != sz) {
+                        // not one word of the observed size per attempt: the reading does not apply
                         *aborted = true;
                         return None;
                     }
@@ -499,7 +556,7 @@ pub fn run(spec: &RunSpec, ty: &dyn TyObj, want_log: bool) -> RunResult {
                         *aborted = true;
                         return None;
                     }
-                    if evs.len() == 1 {
+                    if evs.len() == req_sizes.len() {
                         Some(v)
                     } else {
                         None
@@ -521,9 +578,12 @@ pub fn run(spec: &RunSpec, ty: &dyn TyObj, want_log: bool) -> RunResult {
                     }
                     let x = refint::add(low, k);
                     // multiply-shift hint for where the block of x lives: [A, Bm]
-                    let Some(a_hint) = refint::fibre_start(&kk, &rbytes, width) else { continue };
-                    let k1 = refint::add_small(&kk, 1);
-                    let bm = match refint::fibre_start(&k1, &rbytes, width) {
+                    // the offset in word space (k < r <= 2^(8 ww), so nothing is cut off)
+                    let mut kk_w = kk.clone();
+                    kk_w.resize(ww + 1, 0);
+                    let Some(a_hint) = refint::fibre_start(&kk_w, &r_w, ww) else { continue };
+                    let k1 = refint::add_small(&kk_w, 1);
+                    let bm = match refint::fibre_start(&k1, &r_w, ww) {
                         Some(b) => refint::add_small(&b, -1),
                         None => maxw.clone(),
                     };
@@ -645,16 +705,16 @@ pub fn run(spec: &RunSpec, ty: &dyn TyObj, want_log: bool) -> RunResult {
                     // at every scale 2^j out to the distance of a whole span (catches reorderings of larger chunks).
                     let value_side = |v: &Vec<u8>| refint::ucmp(&refint::sub(v, low), k); // Less: below x, Greater: above x
                     if ok {
-                        let span_bits = if refint::is_zero(&span) { width * 8 } else { refint::bit_len(&span) };
+                        let span_bits = if refint::is_zero(&span) { ww * 8 } else { refint::bit_len(&span) };
                         // below the block
                         let mut d = 1u64;
                         let mut offsets: Vec<Vec<u8>> = Vec::new();
                         while d <= 48 {
-                            offsets.push(refint::from_u64(d, width));
+                            offsets.push(refint::from_u64(d, ww));
                             d += 1;
                         }
-                        for j in 6..=span_bits.min(width * 8 - 1) {
-                            let mut o = sp.bytes(width);
+                        for j in 6..=span_bits.min(ww * 8 - 1) {
+                            let mut o = sp.bytes(ww);
                             for (i, b) in o.iter_mut().enumerate() {
                                 let lo = i * 8;
                                 if lo >= j {
@@ -702,7 +762,7 @@ pub fn run(spec: &RunSpec, ty: &dyn TyObj, want_log: bool) -> RunResult {
                     let size_m1 = refint::sub(&e_x, &a_x);
                     let mut offs: Vec<Vec<u8>> = Vec::new();
                     for t in 0..48u64 {
-                        let tv = refint::from_u64(t, width);
+                        let tv = refint::from_u64(t, ww);
                         if refint::ucmp(&tv, &size_m1) != O::Greater {
                             offs.push(tv.clone());
                             offs.push(refint::sub(&size_m1, &tv));
@@ -731,10 +791,249 @@ pub fn run(spec: &RunSpec, ty: &dyn TyObj, want_log: bool) -> RunResult {
                     }
                     spans_measured += 1;
                     // size as width+1 bytes (a block can be the whole word space)
-                    let mut size = vec![0u8; width + 1];
-                    size[..width].copy_from_slice(&size_m1);
+                    let mut size = vec![0u8; ww + 1];
+                    size[..ww].copy_from_slice(&size_m1);
                     let size = refint::add_small(&size, 1);
                     blocks.push((k.clone(), x, a_x, e_x, size));
+                }
+                // ---- stride reading ------------------------------------------------------------------------------
+                // Nothing could be measured under the contiguous-block reading. Try the other classic family: a
+                // reduction modulo the range size, value = low + (w mod r) or high - (w mod r), where the words of one value
+                // are c, c + r, c + 2r, ... and an acceptance threshold cuts that progression at one end. If — and only
+                // if — the sampler demonstrably has that shape, the number of accepted words of a value is the number of
+                // accepted steps k, located by bisection over k exactly as block ends are located above.
+                let mut strides: Vec<(Vec<u8>, Vec<u8>, Vec<u8>, Vec<u8>, Vec<u8>)> = Vec::new(); // (value, residue c, k_lo, k_hi, count)
+                if blocks.is_empty() && !aborted && r_w[ww] == 0 && refint::bit_len(&r_w[..ww]) >= 2 && refint::bit_len(&r_w[..ww]) + 4 <= ww * 8 {
+                    section.set("stride");
+                    let r = r_w[..ww].to_vec();
+                    let off = |v: &Vec<u8>| -> Vec<u8> {
+                        let mut o = refint::sub(v, low);
+                        o.resize(ww, 0);
+                        o
+                    };
+                    let inc = |o: &Vec<u8>| -> Vec<u8> {
+                        let t = refint::add_small(o, 1);
+                        if t == r { vec![0u8; ww] } else { t }
+                    };
+                    let dec = |o: &Vec<u8>| -> Vec<u8> {
+                        if refint::is_zero(o) { refint::add_small(&r, -1) } else { refint::add_small(o, -1) }
+                    };
+                    // a base word among 0..8 and the direction of the mapping
+                    let mut base: Option<(Vec<u8>, Vec<u8>)> = None;
+                    for t in 0..8u64 {
+                        let w = refint::from_u64(t, ww);
+                        if let Some(v) = probe(&w, &mut viol, &mut aborted) {
+                            base = Some((w, off(&v)));
+                            break;
+                        }
+                    }
+                    let mut dir: i8 = 0;
+                    if let Some((w0, o0)) = &base {
+                        if let Some(v1) = probe(&refint::add_small(w0, 1), &mut viol, &mut aborted) {
+                            let o1 = off(&v1);
+                            if o1 == inc(o0) {
+                                dir = 1;
+                            } else if o1 == dec(o0) {
+                                dir = -1;
+                            }
+                        }
+                    }
+                    // the shape must hold at seeded places all over the word space: w -> w + 1 steps the value by `dir`
+                    // (mod r), and w -> w + r leaves it alone
+                    let mut shape_ok = dir != 0;
+                    let mut pairs_seen = 0;
+                    for _ in 0..10 {
+                        if !shape_ok || aborted {
+                            break;
+                        }
+                        let mut w = sp.bytes(ww);
+                        w[ww - 1] &= 0x7F; // room for + r
+                        let Some(v) = probe(&w, &mut viol, &mut aborted) else { continue };
+                        let o = off(&v);
+                        if let Some(v1) = probe(&refint::add_small(&w, 1), &mut viol, &mut aborted) {
+                            if off(&v1) != if dir == 1 { inc(&o) } else { dec(&o) } {
+                                shape_ok = false;
+                            }
+                            pairs_seen += 1;
+                        }
+                        if let Some(v2) = probe(&refint::add(&w, &r), &mut viol, &mut aborted) {
+                            if off(&v2) != o {
+                                shape_ok = false;
+                            }
+                            pairs_seen += 1;
+                        }
+                    }
+                    if shape_ok && pairs_seen >= 8 && !aborted {
+                        let (w0, o0) = base.clone().unwrap();
+                        'st: for k in targets.iter() {
+                            if aborted {
+                                break;
+                            }
+                            let mut kw = k.clone();
+                            if kw[ww.min(kw.len())..].iter().any(|&b| b != 0) {
+                                continue;
+                            }
+                            kw.resize(ww, 0);
+                            if refint::ucmp(&kw, &r) != O::Less {
+                                continue;
+                            }
+                            let x = refint::add(low, k);
+                            // residue class of the words that map to x
+                            let t = if dir == 1 {
+                                if refint::ucmp(&kw, &o0) != O::Less { refint::sub(&kw, &o0) } else { refint::sub(&refint::add(&kw, &r), &o0) }
+                            } else if refint::ucmp(&o0, &kw) != O::Less {
+                                refint::sub(&o0, &kw)
+                            } else {
+                                refint::sub(&refint::add(&o0, &r), &kw)
+                            };
+                            let c0 = refint::add(&w0, &t);
+                            let c = if refint::ucmp(&c0, &r) != O::Less { refint::sub(&c0, &r) } else { c0 };
+                            let kmax = refint::div_floor(&refint::sub(&maxw, &c), &r);
+                            let word = |kk: &Vec<u8>| -> Vec<u8> {
+                                let mut m = refint::mul(kk, &r);
+                                m.truncate(ww);
+                                refint::add(&c, &m)
+                            };
+                            // Some(true): accepted and maps to x; Some(false): rejected; None: maps elsewhere (shape broken)
+                            type ProbeFn<'x> = &'x mut dyn FnMut(&[u8], &mut Vec<Violation>, &mut bool) -> Option<Vec<u8>>;
+                            let acc_p = |probe: ProbeFn, kk: &Vec<u8>, viol: &mut Vec<Violation>, aborted: &mut bool| -> Option<bool> {
+                                match probe(&word(kk), viol, aborted) {
+                                    Some(v) if v == x => Some(true),
+                                    Some(_) => None,
+                                    None => Some(false),
+                                }
+                            };
+                            let zero_k = vec![0u8; ww];
+                            let (Some(a0), Some(ak)) = (acc_p(&mut probe, &zero_k, &mut viol, &mut aborted), acc_p(&mut probe, &kmax, &mut viol, &mut aborted)) else {
+                                inapplicable += 1;
+                                continue;
+                            };
+                            let (k_lo, k_hi) = match (a0, ak) {
+                                (true, true) => (zero_k.clone(), kmax.clone()),
+                                (false, false) => {
+                                    inapplicable += 1;
+                                    continue;
+                                }
+                                (true, false) => {
+                                    // largest accepted step
+                                    let (mut lo, mut hi) = (zero_k.clone(), kmax.clone());
+                                    while refint::ucmp(&lo, &hi) == O::Less && refint::ucmp(&refint::add_small(&lo, 1), &hi) == O::Less && !aborted {
+                                        let m = refint::midpoint(&lo, &hi);
+                                        match acc_p(&mut probe, &m, &mut viol, &mut aborted) {
+                                            Some(true) => lo = m,
+                                            Some(false) => hi = m,
+                                            None => {
+                                                inapplicable += 1;
+                                                continue 'st;
+                                            }
+                                        }
+                                    }
+                                    (zero_k.clone(), lo)
+                                }
+                                (false, true) => {
+                                    let (mut lo, mut hi) = (zero_k.clone(), kmax.clone());
+                                    while refint::ucmp(&lo, &hi) == O::Less && refint::ucmp(&refint::add_small(&lo, 1), &hi) == O::Less && !aborted {
+                                        let m = refint::midpoint(&lo, &hi);
+                                        match acc_p(&mut probe, &m, &mut viol, &mut aborted) {
+                                            Some(true) => hi = m,
+                                            Some(false) => lo = m,
+                                            None => {
+                                                inapplicable += 1;
+                                                continue 'st;
+                                            }
+                                        }
+                                    }
+                                    (hi, kmax.clone())
+                                }
+                            };
+                            if aborted {
+                                break;
+                            }
+                            // verification: both ends accepted, the steps just outside rejected, seeded interior steps
+                            // accepted, a few steps far outside rejected; the words next to sampled members belong to the
+                            // neighbouring values
+                            let mut ok = acc_p(&mut probe, &k_lo, &mut viol, &mut aborted) == Some(true) && acc_p(&mut probe, &k_hi, &mut viol, &mut aborted) == Some(true);
+                            if ok && !refint::is_zero(&k_lo) {
+                                ok = acc_p(&mut probe, &refint::add_small(&k_lo, -1), &mut viol, &mut aborted) == Some(false);
+                            }
+                            if ok && k_hi != kmax {
+                                ok = acc_p(&mut probe, &refint::add_small(&k_hi, 1), &mut viol, &mut aborted) == Some(false);
+                            }
+                            let span_k = refint::sub(&k_hi, &k_lo);
+                            for i in 0..16u64 {
+                                if !ok || aborted {
+                                    break;
+                                }
+                                let o = if i < 4 { refint::from_u64(i, ww) } else { crate::gen::below_incl(&mut sp, &span_k) };
+                                if refint::ucmp(&o, &span_k) == O::Greater {
+                                    continue;
+                                }
+                                let kk2 = if i % 2 == 0 { refint::add(&k_lo, &o) } else { refint::sub(&k_hi, &o) };
+                                if acc_p(&mut probe, &kk2, &mut viol, &mut aborted) != Some(true) {
+                                    ok = false;
+                                    break;
+                                }
+                                // neighbours in word space belong to the neighbouring values (or are rejected)
+                                let wv = word(&kk2);
+                                if wv != maxw {
+                                    if let Some(v) = probe(&refint::add_small(&wv, 1), &mut viol, &mut aborted) {
+                                        if off(&v) != if dir == 1 { inc(&kw) } else { dec(&kw) } {
+                                            ok = false;
+                                        }
+                                    }
+                                }
+                            }
+                            // steps outside [k_lo, k_hi] must be rejected
+                            for _ in 0..6 {
+                                if !ok || aborted {
+                                    break;
+                                }
+                                if k_hi != kmax {
+                                    let room = refint::sub(&kmax, &k_hi);
+                                    let o = crate::gen::below_incl(&mut sp, &room);
+                                    if !refint::is_zero(&o) && acc_p(&mut probe, &refint::add(&k_hi, &o), &mut viol, &mut aborted) != Some(false) {
+                                        ok = false;
+                                    }
+                                }
+                                if !refint::is_zero(&k_lo) {
+                                    let o = crate::gen::below_incl(&mut sp, &k_lo);
+                                    if !refint::is_zero(&o) && acc_p(&mut probe, &refint::sub(&k_lo, &o), &mut viol, &mut aborted) != Some(false) {
+                                        ok = false;
+                                    }
+                                }
+                            }
+                            if aborted {
+                                break;
+                            }
+                            if !ok {
+                                inapplicable += 1;
+                                continue;
+                            }
+                            let mut cnt = vec![0u8; ww + 1];
+                            cnt[..ww].copy_from_slice(&span_k);
+                            let cnt = refint::add_small(&cnt, 1);
+                            strides.push((x, c, k_lo, k_hi, cnt));
+                        }
+                    }
+                    *counters.entry("probe_strides_measured").or_insert(0) += strides.len() as u64;
+                    if strides.len() >= 2 && !aborted {
+                        bump(&mut counters, "stride_probe_configs_compared");
+                        let mn = strides.iter().min_by(|a, b| refint::ucmp(&a.4, &b.4)).unwrap();
+                        let mx = strides.iter().max_by(|a, b| refint::ucmp(&a.4, &b.4)).unwrap();
+                        if mn.4 != mx.4 && refint::add_small(&mn.4, 1) != mx.4 {
+                            bump(&mut counters, "stride_probe_sizes_implausible");
+                        } else if mn.4 != mx.4 {
+                            viol.push(Violation {
+                                class: "fibre_strides_differ",
+                                op: oi,
+                                call: 0,
+                                detail: format!(
+                                    "{} on [{}, {}] reduces {}-bit words modulo the range size {} (w and w + r give the same value, w + 1 the next one — checked at seeded places): value {} is produced exactly by the {} words {} + k*r, k = {}..={}, but value {} by the {} words {} + k*r, k = {}..={} (little-endian hex; ends located by bisection over k, steps outside rejected, steps inside sampled) — values do not have the same number of accepted preimages",
+                                    ["gen_range", "sample_single", "Uniform::sample"][*via as usize % 3], hex(low), hex(&high_incl), ww * 8, hex(&r), hex(&mn.0), hex(&mn.4), hex(&mn.1), hex(&mn.2), hex(&mn.3), hex(&mx.0), hex(&mx.4), hex(&mx.1), hex(&mx.2), hex(&mx.3)
+                                ),
+                            });
+                        }
+                    }
                 }
                 calls_total += probes;
                 *counters.entry("probe_spans_measured").or_insert(0) += spans_measured;
